@@ -1138,10 +1138,19 @@ pub fn query_candidates(q: &Query) -> Vec<Query> {
         let mut c = q.clone();
         c.with = None;
         let sub = |e: &Expr| -> Expr {
-            if let Expr::Var(v) = e {
-                if let Some((x, _)) = w.items.iter().find(|(_, a)| a == v) {
-                    return x.clone();
+            match e {
+                Expr::Var(v) => {
+                    if let Some((x, _)) = w.items.iter().find(|(_, a)| a == v) {
+                        return x.clone();
+                    }
                 }
+                // a property of a renamed variable: back to the original name
+                Expr::Prop(v, k) => {
+                    if let Some((Expr::Var(x), _)) = w.items.iter().find(|(_, a)| a == v) {
+                        return Expr::Prop(x.clone(), k.clone());
+                    }
+                }
+                Expr::Lit(_) => {}
             }
             e.clone()
         };
@@ -1767,12 +1776,59 @@ pub fn gen_query(r: &mut Rng, profile: Profile, lang: Lang, allow_mutation: bool
             items.push((Expr::Var(v.clone()), v.clone()));
             new_nodes.push(v);
         }
+        // WITH <var> AS <other>: a fresh name, the name of a variable that is not passed on
+        // (shadowing), or two names swapped — followed by a WHERE on the new names most of the
+        // time (wide profile only; the physical profile's random stream is left as it was)
+        let mut renamed: Vec<(String, bool)> = Vec::new();
+        if profile == Profile::Wide && r.chance(0.4) {
+            let use_edges = !new_edges.is_empty() && r.chance(0.25);
+            let (group, all) = if use_edges { (&mut new_edges, &edges) } else { (&mut new_nodes, &nodes) };
+            if !group.is_empty() {
+                let gi = r.below(group.len());
+                let v = group[gi].clone();
+                let dropped: Vec<String> = all.iter().filter(|u| !group.contains(u)).cloned().collect();
+                let mode = r.below(3);
+                if mode == 2 && group.len() >= 2 {
+                    let mut gj = r.below(group.len() - 1);
+                    if gj >= gi {
+                        gj += 1;
+                    }
+                    let u = group[gj].clone();
+                    for it in items.iter_mut() {
+                        let src = match &it.0 {
+                            Expr::Var(x) if *x == it.1 => x.clone(),
+                            _ => continue,
+                        };
+                        if src == v {
+                            it.1 = u.clone();
+                        } else if src == u {
+                            it.1 = v.clone();
+                        }
+                    }
+                    renamed.push((v.clone(), use_edges));
+                    renamed.push((u, use_edges));
+                } else {
+                    let alias = if mode == 1 && !dropped.is_empty() { r.pick(&dropped).clone() } else { "m1".to_string() };
+                    for it in items.iter_mut() {
+                        if matches!(&it.0, Expr::Var(x) if *x == v) && it.1 == v {
+                            it.1 = alias.clone();
+                        }
+                    }
+                    group[gi] = alias.clone();
+                    renamed.push((alias, use_edges));
+                }
+            }
+        }
         let distinct = r.chance(0.35);
         let mut w = With { items, distinct, filter: None };
-        if r.chance(0.4) {
+        if r.chance(if renamed.is_empty() { 0.4 } else { 0.85 }) {
             let mut wv: Vec<(String, bool)> = new_nodes.iter().map(|v| (v.clone(), false)).collect();
             wv.extend(new_edges.iter().map(|v| (v.clone(), true)));
-            if !wv.is_empty() {
+            if !renamed.is_empty() {
+                // a WHERE that reads a new name, alone or with one more conjunct
+                let on_new = gen_pred(r, lang, &renamed, &[], 0);
+                w.filter = Some(if r.chance(0.3) { Pred::And(Box::new(on_new), Box::new(gen_pred(r, lang, &wv, &new_vals, 0))) } else { on_new });
+            } else if !wv.is_empty() {
                 w.filter = Some(gen_pred(r, lang, &wv, &new_vals, 1));
             } else if !new_vals.is_empty() {
                 let v = r.pick(&new_vals).clone();
